@@ -2,7 +2,7 @@ import MJ.Model.SafeProg
 /-! Line driver for C02.  Input line: `<id>\t<step>|<step>|…` with steps
 
   D <cps>            data string            R <cps>     template text
-  I <n>  B <0|1>  N  U                      L <i,j,…|->  list of registers      K <key>=<i>,…  map of registers
+  I <n>  B <0|1>  N  U  Y <b,b,…> bytes  F <cps> float text  O <cps> object text                      L <i,j,…|->  list of registers      K <key>=<i>,…  map of registers
   E <m> <i>          emit register i in mode m ∈ {h,n,j}
   BC  EC <m>  MR <m> begin capture / end capture / macro return
   A <name> <m> <i,j,…|-> <p,q,…|->   apply the named operator/filter model to registers, numeric parameters
@@ -32,6 +32,9 @@ def parseStep (s : String) : Except String Step :=
   | ["R", c] => match parseCps c with | some x => .ok (.raw x) | none => .error "R"
   | ["I", n] => match n.toInt? with | some x => .ok (.int x) | none => .error "I"
   | ["B", b] => .ok (.bool (b == "1"))
+  | ["Y", bs] => match parseNats bs with | some x => .ok (.value (.bytes x)) | none => .error "Y"
+  | ["F", c] => match parseCps c with | some x => .ok (.value (.float x.toList)) | none => .error "F"
+  | ["O", c] => match parseCps c with | some x => .ok (.value (.obj (ofData x))) | none => .error "O"
   | ["N"] => .ok .none
   | ["U"] => .ok .undef
   | ["L", is] => match parseNats is with | some x => .ok (.mkSeq x) | none => .error "L"
@@ -66,6 +69,9 @@ partial def encV : V → String
   | .none => "N"
   | .undef => "U"
   | .seq xs => "L(" ++ ";".intercalate (xs.map encV) ++ ")"
+  | .bytes bs => "Y:" ++ (if bs.isEmpty then "-" else ",".intercalate (bs.map toString))
+  | .float cs => "F:" ++ encStr (floatText cs)
+  | .obj t => "O:" ++ encStr t
   | .map kvs => "M(" ++ ";".intercalate (kvs.map fun kv => "S0:" ++ encStr (ofData kv.1) ++ "=" ++ encV kv.2) ++ ")"
 
 def className : Class → String
@@ -96,7 +102,7 @@ def failingStep : List Step → St → Nat → Nat
   expr  := (var n) (lit s) (int i) (bool b) (none) (cat a b) (add a b) (mul a n) (filt name (ps p…) e…)
            (meth name (ps p…) recv e…) (index a k) (slice a x y) (attr a key) (list e…) (dict (key e)…) (call m e…) (caller) (super)
            (looprec e) (loopindex) (loopfirst) (not e) (cond c a b)
-  ctx   := (ctx (name cv)…)   cv := (s str) (i n) (b 0|1) (n) (l cv…) (m (key cv)…)
+  ctx   := (ctx (name cv)…)   cv := (s str) (i n) (b 0|1) (n) (y <b,b,…|->) (f str) (o str) (l cv…) (m (key cv)…)
   all names and strings are code-point lists as above -/
 
 inductive Sexp where
@@ -211,6 +217,9 @@ partial def toCV : Sexp → Option CV
   | .list [.atom "i", .atom n] => n.toInt?.map .int
   | .list [.atom "b", .atom b] => some (.bool (b == "1"))
   | .list [.atom "n"] => some .none
+  | .list [.atom "y", .atom bs] => (parseNats bs).map .bytes
+  | .list [.atom "f", c] => (sStr c).map fun x => .float x.toList
+  | .list [.atom "o", c] => (sStr c).map .obj
   | .list (.atom "l" :: xs) => (xs.mapM toCV).map .list
   | .list (.atom "m" :: kvs) =>
     (kvs.mapM fun (kv : Sexp) => match kv with
